@@ -207,7 +207,9 @@ static void poolAllocRun() {
   SlabLog& log = immortal<SlabLog>();
   static const size_t chunkSizes[] = {16, 64, 24};
   size_t chunk = oneOf(chunkSizes);
-  size_t slab = chunk * (size_t)range(1, 6);
+  // slab sizes that are exact multiples of the chunk size, and ones that leave a remainder (legal: the
+  // tail of the slab is simply not used)
+  size_t slab = chunk * (size_t)range(1, 6) + (chance(1, 3) ? (size_t)range(1, (int)chunk - 1) : 0);
   int nThreads = kThreadSafe ? range(1, 4) : 1;
   sim_note("chunk", (int64_t)chunk);
   sim_note("slab", (int64_t)slab);
